@@ -37,6 +37,10 @@ RefPost(op, k, in, cur) ==
 (* pre/post are the id tokens of the object before/after ("absent" before  *)
 (* a constructor).                                                         *)
 (***************************************************************************)
+\* nameis: "given" (the name handed to the constructor), "id" (equal to the object's id), "empty", "other", "-" (Document)
+NameStepOK(o) == (o.kind # "doc" /\ o.out = "ok") =>
+                    /\ o.nameis # "empty"
+                    /\ (o.op = "ctor" => o.nameis = (IF o.named THEN "given" ELSE "id"))
 IdCanonical(o) == IsCanonTok(o.post) \/ (o.op = "ctor" /\ o.out = "raised" /\ o.post = "absent")
 IdStepOK(o) ==
    IF o.op = "ctor" THEN
